@@ -22,7 +22,7 @@ from vlib import *
 from pegrun import *
 
 SL_QUICK = [("core", 4, 3, 16), ("stack", 4, 3, 16), ("until", 2, 4, 4), ("prims", 2, 2, 2)]
-SL_THOROUGH = [("core", 4, 4, 16), ("stack", 4, 4, 16), ("until", 2, 5, 8), ("core", 5, 2, 32), ("prims", 3, 3, 8)]
+SL_THOROUGH = [("core", 4, 4, 16), ("stack", 4, 4, 16), ("until", 2, 5, 8), ("prims", 3, 3, 8)]
 
 
 def run(ctx):
